@@ -72,3 +72,8 @@ Ltac rmfix := repeat match goal with
       first [ rewrite (nl_rm x l) by mem | rewrite (nl_rm_notin x l) by mem ]
   | |- context [nl (_ :: _)] => rewrite nl_cons
   end.
+
+Ltac ap := repeat match goal with
+  | H : (1 <= ?b < ?n)%nat -> _ |- _ =>
+      let P := fresh "P" in assert (P : (1 <= b < n)%nat) by lia; specialize (H P); clear P
+  end.
